@@ -744,7 +744,7 @@ def eval_dyad_multiply(a, b, backend):
 
 def _e_dyad_power(a, b, backend):
     # Check if input requires grad - if so, preserve float for autograd
-    input_has_grad = backend.has_gradient(a)
+    input_has_grad = backend.has_gradient(a) or backend.has_gradient(b)
     # Use backend power function which handles gradient-aware power
     r = backend.power(a, b)
     # If input had gradients, keep result as float to preserve autograd
